@@ -46,6 +46,7 @@ Proof. intros H E. subst imp. unfold create_db_fs. rewrite H. destruct force; cb
 
 Section R.
   Variable call : nat -> row -> option str.
+  Variable kind : dbkind.
 
   Theorem l_reads_pure : forall rs s, m_disk (reads s rs) = m_disk s /\ m_bak (reads s rs) = m_bak s.
   Proof.
@@ -56,7 +57,7 @@ Section R.
   (* what a reopen observes after any sequence of read-style calls: the same content and the same
      id counters as before them *)
   Theorem l_reads_then_reopen rs s :
-    fst (step call (reads s rs) OpReopen) = fst (step call s OpReopen).
+    fst (step call kind (reads s rs) OpReopen) = fst (step call kind s OpReopen).
   Proof.
     destruct (l_reads_pure rs s) as [A B]. cbn [step fst]. rewrite A, B. reflexivity.
   Qed.
